@@ -14,7 +14,8 @@ RULE = ("1-8 timer systems with start in [-12,50] or far future, end in {forever
         "execute(n), n in 1..7, and bare execute_systems(), with rejected n (0, negative, float, str, None, list) "
         "injected; non-trivial = >=1 system with start != 0 and frequency > 1 fired >=2 times and >=1 system was "
         "registered after its start; distinct = multiset of (start, end-class, frequency, registration offset) plus "
-        "the advance pattern")
+        "the advance pattern"
+        "; also: removal and re-registration (other window, same id), systems registered by other systems from inside a step (also inside execute(n)), str-subclass ids, systems with value-based __eq__")
 COMPONENTS = {"real": ["ECAgent.Core.SystemManager.execute_systems (activation predicate, clock)", "ECAgent.Core.Model.execute",
                        "Model.timestep forwarding"],
               "stub": ["System.execute bodies are harness recorders"]}
